@@ -52,11 +52,12 @@ def gen_counts(rng: random.Random, big: bool):
         ks = [rng.choice([0, n, rng.randint(0, n), rng.randint(0, n)]) for _ in range(w)]
     else:
         # n * sum(ks) up to 2^63
-        bits = rng.randint(20, 62)
+        # ... with every third case in the top binade 2^62 <= n * sum(ks) < 2^63 of the stated range
+        bits = rng.randint(20, 62) if rng.random() < 0.67 else 63
         w = rng.randint(1, 6)
         n = rng.randint(2, max(2, 2 ** (bits // 2 + rng.randint(0, bits // 2 - 1))))
         cap = max(1, (2 ** bits) // n // w)
-        ks = [min(n, rng.randint(0, cap)) for _ in range(w)]
+        ks = [min(n, rng.randint(cap // 2 if bits == 63 else 0, cap)) for _ in range(w)]
         if n * sum(ks) >= 2 ** 63:
             return gen_counts(rng, big)
     return ks, n
@@ -200,6 +201,20 @@ def suite_isim(tier: str, seed: int, mult: int) -> SuiteResult:
                         outs[(name, packed)] = fval(v)
                     except Exception as e:  # noqa: BLE001
                         outs[(name, packed)] = err_name(e)
+            # oracle (no model): every wrapper agrees with its from-sum form on the column sums of the same rows, and the
+            # packed form with the unpacked one
+            if n >= 2:
+                colsum = X.astype(np.uint64).sum(axis=0)
+                with np.errstate(all="ignore"):
+                    ref = {"isim": fval(sim.jt_isim_from_sum(colsum, n)), "diameter": fval(sim.jt_isim_diameter_from_sum(colsum, n)),
+                           "radius": fval(sim.jt_isim_radius_from_sum(colsum, n)),
+                           "radius_compl": fval(sim.jt_isim_radius_compl_from_sum(colsum, n))}
+                for (name, packed), v in outs.items():
+                    if not v.startswith("err") and v != ref[name]:
+                        res.failures.append({"signature": f"C11:wrapper-{name}-{'packed' if packed else 'unpacked'}-differs-from-the-from-sum-form",
+                                             "what": f"jt_isim_{name}({'packed' if packed else 'unpacked'} rows) = {v}, from the column sums {ref[name]}",
+                                             "case": {"F": F, "rows": rows}})
+                        break
             m_isim, m_diam, m_rad, m_rc, m_cent = mline.split(" ")
             want = {"isim": m_isim, "diameter": m_diam, "radius": m_rad, "radius_compl": m_rc}
             for (name, packed), v in outs.items():
